@@ -96,6 +96,23 @@ def bits_programs(b):
     return progs
 
 
+def bits_seq_programs(b):
+    """x.to_bits(n1) (or a default-width gadget) followed by x.to_bits(n2) / assert_positive(bits=n2) on the SAME object"""
+    progs = []
+    firsts = [("tb%d" % n1, {"op": "meth", "name": "to_bits", "kw": {"bits": {"c": n1}}}) for n1 in range(1, b + 3)] + \
+             [("tbd", {"op": "meth", "name": "to_bits"}), ("inv", {"op": "un", "name": "invert"}), ("chk", {"op": "meth", "name": "check_positive"})]
+    for fnm, f in firsts:
+        for n2 in range(0, b + 2):
+            for v in range(0, 1 << (b + 1)):
+                B = gen.Builder("bits2/%s/%d/%d" % (fnm, n2, v), "plain", None, {"family": "bits", "v": v, "n": n2, "explicit": True})
+                r = B.opnd(("S", v))
+                B.add(dict(f, a=r))
+                B.add({"op": "meth", "name": "to_bits", "a": r, "kw": {"bits": {"c": n2}}, "tag": "to_bits"})
+                B.add({"op": "call", "fn": "from_bits", "args": [{"r": B.nreg + 1}], "tag": "from_bits"})
+                progs.append(B.build())
+    return progs
+
+
 def case_of(tr):
     m = tr["meta"]
     evs = []
@@ -122,7 +139,7 @@ def main(tier):
     cases = []
     for b in (2, 3, 4):
         cfg = {"P": {2: 67, 3: 257, 4: 1031}[b], "bitlength": b, "resolution": 1}
-        progs = bits_programs(b)
+        progs = bits_programs(b) + (bits_seq_programs(b) if b <= 3 else [])
         for p in progs:
             p["id"] = "b%d/" % b + p["id"]
         if b == 4:
